@@ -155,7 +155,14 @@ func init() {
 			for i := range zoo.Types {
 				t := &zoo.Types[i]
 				us = append(us, core.Unit{Name: "enc:" + t.Name, Cost: 10, Run: func(c *core.Ctx) {
-					forEachZooRaw(c, t, 1, true, func(zc *ZooCase) {
+					// values with two deviating positions for the types where sharing needs two (a second element
+					// AND "the same map / slice / pointer as before")
+					zooBound := 1
+					switch t.Name {
+					case "SlNamedMapL", "TypeTable", "Ptrs", "TimeThenPtrs", "SlMap", "MpStrSl":
+						zooBound = 2
+					}
+					forEachZooRaw(c, t, zooBound, true, func(zc *ZooCase) {
 						tm, nm, p := Maps(zc.Val)
 						if p != "" {
 							return
@@ -167,6 +174,9 @@ func init() {
 						// quick: default value with <=2 non-canonical choices, one-deviation values with <=1;
 						// thorough: default value <=3, one-deviation values <=2
 						bound := tierPick(tier, 1, 2)
+						if zc.Devs >= 2 {
+							bound = tierPick(tier, 0, 1)
+						}
 						if zc.Devs == 0 {
 							bound = tierPick(tier, 2, 3)
 						}
